@@ -113,8 +113,11 @@ pub fn worker_main(engine: &dyn Engine, args: &[String]) -> i32 {
         let lim = libc::rlimit { rlim_cur: 4 << 30, rlim_max: 4 << 30 };
         libc::setrlimit(libc::RLIMIT_AS, &lim);
     }
-    let stdout = std::io::stdout();
-    let mut out = std::io::BufWriter::new(stdout.lock());
+    // the protocol goes to a private duplicate of fd 1; fd 1 itself is pointed at
+    // /dev/null so that whatever the system under test prints cannot corrupt it
+    // (engines that need the output redirect fd 1 to a memfd around the evaluation)
+    let proto = crate::procio::take_over_stdout();
+    let mut out = std::io::BufWriter::new(proto);
     let mut counters: BTreeMap<String, u64> = BTreeMap::new();
     let mut sched: HashSet<u64> = HashSet::new();
     let mut sched_nontrivial: HashSet<u64> = HashSet::new();
